@@ -28,10 +28,11 @@ innermost enclosing loop and nothing else; `stop` ends the run."
 * **`for` with a real** initial value, increment or limit is a `typecheck`
   (`for_real_typecheck`; `builtin.go`: "TODO(voss): the spec also allows Real values here").
   The "integer and real" part of C03 is false for the code; only integer `for` is characterised.
-* **`for` whose control value leaves the `int64` range** wraps around and never terminates by
-  itself: `Loops.for_overflow_cycle` (PLRM count 2, the model is back at control value 0 after 4
-  turns), `for_overflow_endless`.  `for_count_pos`/`for_count_neg` therefore assume
-  `limit + increment` representable.
+* **`for` whose control value would leave the `int64` range** used to wrap around and never
+  terminate (`0 4611686018427387904 9223372036854775807 {pop} for`: PLRM count 2, the Go code ran
+  until the budget).  Repaired in `bFor` (the loop ends when `val + increment` is not an `int`);
+  `for_count_pos`/`for_count_neg` now hold for **all** `int64` operands with `increment ≠ 0`, and
+  the former witness runs its body exactly twice (`Loops.for_overflow_fixed`, `demo_overflow_for`).
 * **`for` with increment 0** never terminates by itself (`for_zero_endless`); the PLRM leaves
   this case open.
 * **`forall`** fixes the number of turns at the start but reads element `i` of an array/string
@@ -115,9 +116,10 @@ theorem forIter_eq_foldl (G : Int → State → State) (init inc : Int) (n : Nat
 
 /-- **`for_count`, positive increment**: `initial increment limit p for` runs `p` exactly
 `forCount initial increment limit = max 0 (⌊(limit - initial)/increment⌋ + 1)` times, turn `k`
-with `initial + k·increment` pushed.  `Inv k` describes the states before turn `k`. -/
+with `initial + k·increment` pushed, for all `int64` operands.  `Inv k` describes the states
+before turn `k`. -/
 theorem for_count_pos {f0 m : Nat} {p : Obj} (init inc lim : Int) (hinc : 0 < inc)
-    (hlo : minInt64 ≤ init) (hhi : lim + inc ≤ maxInt64)
+    (hlo : minInt64 ≤ init) (hinit : init ≤ maxInt64) (hhi : lim ≤ maxInt64)
     (Inv : Nat → State → Prop) (G : Int → State → State)
     (hbody : ∀ k s, k < forCount init inc lim → Inv k s →
       Runs f0 m p (pushS s (.int (init + (k : Int) * inc))) (G (init + (k : Int) * inc) s, .ok) ∧
@@ -130,12 +132,12 @@ theorem for_count_pos {f0 m : Nat} {p : Obj} (init inc lim : Int) (hinc : 0 < in
     induction i with
     | zero => intro _; exact hs
     | succ i ih => intro hi; exact (hbody i _ (by omega) (ih (by omega))).2
-  exact PsVerif.Proofs.Loops.for_count_pos init inc lim hinc hlo hhi (fun i => forIter G init inc i s)
+  exact PsVerif.Proofs.Loops.for_count_pos init inc lim hinc hlo hinit hhi (fun i => forIter G init inc i s)
     (fun i hi => (hbody i _ hi (hinv i (by omega))).1)
 
 /-- **`for_count`, negative increment** (`forCount = max 0 (⌊(initial - limit)/(-increment)⌋ + 1)`) -/
 theorem for_count_neg {f0 m : Nat} {p : Obj} (init inc lim : Int) (hinc : inc < 0)
-    (hhi : init ≤ maxInt64) (hlo : minInt64 ≤ lim + inc)
+    (hhi : init ≤ maxInt64) (hinit : minInt64 ≤ init) (hlo : minInt64 ≤ lim)
     (Inv : Nat → State → Prop) (G : Int → State → State)
     (hbody : ∀ k s, k < forCount init inc lim → Inv k s →
       Runs f0 m p (pushS s (.int (init + (k : Int) * inc))) (G (init + (k : Int) * inc) s, .ok) ∧
@@ -148,7 +150,7 @@ theorem for_count_neg {f0 m : Nat} {p : Obj} (init inc lim : Int) (hinc : inc < 
     induction i with
     | zero => intro _; exact hs
     | succ i ih => intro hi; exact (hbody i _ (by omega) (ih (by omega))).2
-  exact PsVerif.Proofs.Loops.for_count_neg init inc lim hinc hhi hlo (fun i => forIter G init inc i s)
+  exact PsVerif.Proofs.Loops.for_count_neg init inc lim hinc hhi hinit hlo (fun i => forIter G init inc i s)
     (fun i hi => (hbody i _ hi (hinv i (by omega))).1)
 
 /-- the count is the PLRM's: e.g. `0 1 4`, `1 2 6`, `10 -3 -5`, empty ranges, a single turn -/
@@ -257,12 +259,13 @@ theorem exit_innermost_repeat {f0 m : Nat} {p : Obj} (σ : Nat → State) (n j :
 /-- … of `for` (any increment, also 0; `val` = the control values, `val (i+1) = wrap64 (val i + inc)`) -/
 theorem exit_innermost_for {f0 m : Nat} {p : Obj} (inc lim : Int) (val : Nat → Int) (σ : Nat → State) (j : Nat)
     (hp : ∀ i, i ≤ j → ¬ forPast inc lim (val i))
+    (ho : ∀ i, i < j → ¬ forOver inc (val i))
     (hw : ∀ i, i < j → wrap64 (val i + inc) = val (i + 1))
     (h : ∀ i, i < j → Runs f0 m p (pushS (σ i) (.int (val i))) (σ (i + 1), .ok))
     (s' : State) (hexit : Runs f0 m p (pushS (σ j) (.int (val j))) (s', .err .exit)) :
     ∀ fuel, f0 + j + 2 ≤ fuel → forLoop fuel m (σ 0) (val 0) inc lim p = (s', .ok) := by
   intro fuel hf
-  rw [for_breaks_gen inc lim val σ j hp hw h s' _ (by simp) hexit fuel hf, broken_exit]
+  rw [for_breaks_gen inc lim val σ j hp ho hw h s' _ (by simp) hexit fuel hf, broken_exit]
 
 /-- … of `forall` over an array -/
 theorem exit_innermost_forall_array {f0 m : Nat} {p : Obj} (r o : Nat) (x : Nat → Obj) (σ : Nat → State)
@@ -313,12 +316,13 @@ theorem stop_propagates_loop {f0 m : Nat} {p : Obj} (σ : Nat → State) (j : Na
 
 theorem stop_propagates_for {f0 m : Nat} {p : Obj} (inc lim : Int) (val : Nat → Int) (σ : Nat → State) (j : Nat)
     (hp : ∀ i, i ≤ j → ¬ forPast inc lim (val i))
+    (ho : ∀ i, i < j → ¬ forOver inc (val i))
     (hw : ∀ i, i < j → wrap64 (val i + inc) = val (i + 1))
     (h : ∀ i, i < j → Runs f0 m p (pushS (σ i) (.int (val i))) (σ (i + 1), .ok))
     (s' : State) (e : Err) (he : e ≠ .exit) (herr : Runs f0 m p (pushS (σ j) (.int (val j))) (s', .err e)) :
     ∀ fuel, f0 + j + 2 ≤ fuel → forLoop fuel m (σ 0) (val 0) inc lim p = (s', .err e) := by
   intro fuel hf
-  rw [for_breaks_gen inc lim val σ j hp hw h s' _ (by simp) herr fuel hf, broken_err _ _ he]
+  rw [for_breaks_gen inc lim val σ j hp ho hw h s' _ (by simp) herr fuel hf, broken_err _ _ he]
 
 theorem stop_propagates_forall_array {f0 m : Nat} {p : Obj} (r o : Nat) (x : Nat → Obj) (σ : Nat → State)
     (n j : Nat) (hj : j < n)
@@ -386,6 +390,7 @@ return: the model runs out of fuel for every fuel (with a budget `m > 0` the hyp
 hold for all turns: some turn ends with `.err .limit`) -/
 theorem for_endless_gen {f0 m : Nat} {p : Obj} (inc lim : Int) (val : Nat → Int) (σ : Nat → State)
     (hp : ∀ i, ¬ forPast inc lim (val i))
+    (ho : ∀ i, ¬ forOver inc (val i))
     (hw : ∀ i, wrap64 (val i + inc) = val (i + 1))
     (h : ∀ i, Runs f0 m p (pushS (σ i) (.int (val i))) (σ (i + 1), .ok)) :
     ∀ fuel i, (forLoop fuel m (σ i) (val i) inc lim p).2 = .fuel := by
@@ -401,7 +406,7 @@ theorem for_endless_gen {f0 m : Nat} {p : Obj} (inc lim : Int) (val : Nat → In
       dsimp only at hq
       subst hq
       simp [afterTurn]
-    · rw [hq, afterTurn_ok, hw i]
+    · rw [hq, afterTurn_ok, if_neg (ho i), hw i]
       exact ih (i + 1)
 
 /-- **`for` with increment 0 never ends by itself** (the PLRM leaves this case open) -/
@@ -410,24 +415,8 @@ theorem for_zero_endless {f0 m : Nat} {p : Obj} (init lim : Int) (hlo : minInt64
     ∀ fuel, (forLoop fuel m (σ 0) init 0 lim p).2 = .fuel := by
   intro fuel
   exact for_endless_gen 0 lim (fun _ => init) σ (fun _ => for_zero_never_past lim init)
+    (fun _ => for_zero_never_over init)
     (fun _ => by rw [Int.add_zero]; exact wrap64_id' init hlo hhi) h fuel 0
-
-/-- **finding: `0 4611686018427387904 9223372036854775807 proc for` never ends by itself**
-(PLRM: two turns, `Loops.for_overflow_cycle`): the control value wraps around like Go's `int`
-(`0, 2^62, -2^63, -2^62, 0, …`) and never exceeds the limit `maxint` -/
-theorem for_overflow_endless {f0 m : Nat} {p : Obj} (σ : Nat → State)
-    (h : ∀ i, Runs f0 m p (pushS (σ i) (.int (overflowVal (i % 4)))) (σ (i + 1), .ok)) :
-    ∀ fuel, (forLoop fuel m (σ 0) 0 4611686018427387904 9223372036854775807 p).2 = .fuel := by
-  intro fuel
-  have hcases : ∀ i : Nat, i % 4 = 0 ∨ i % 4 = 1 ∨ i % 4 = 2 ∨ i % 4 = 3 := by intro i; omega
-  exact for_endless_gen 4611686018427387904 9223372036854775807 (fun i => overflowVal (i % 4)) σ
-    (fun i => by
-      rcases hcases i with e | e | e | e <;> rw [e] <;> decide +kernel)
-    (fun i => by
-      have e4 : (i + 1) % 4 = (i % 4 + 1) % 4 := by omega
-      rw [e4]
-      rcases hcases i with e | e | e | e <;> rw [e] <;> decide +kernel)
-    h fuel 0
 
 /-- `loop` whose turns all end with `ok` does not return -/
 theorem loop_endless {f0 m : Nat} {p : Obj} (σ : Nat → State)
@@ -555,7 +544,7 @@ theorem sumTrace_inv (s : State) (r : Nat) (a init inc : Int) (rest : List Obj)
 — derived from `Loops.for_count_pos`: the body runs `forCount init inc lim` times, turn `k`
 with `init + k·inc` pushed -/
 theorem for_sum_pos (m : Nat) (s : State) (r : Nat) (a init inc lim : Int) (rest : List Obj)
-    (hinc : 0 < inc) (hlo : minInt64 ≤ init) (hhi : lim + inc ≤ maxInt64)
+    (hinc : 0 < inc) (hlo : minInt64 ≤ init) (hinit : init ≤ maxInt64) (hhi : lim ≤ maxInt64)
     (hd : s.execDepth < 100) (hp : s.procStart = [])
     (hst : s.vm.stack = .int a :: rest) (hlen : rest.length + 2 ≤ 500)
     (hcell : s.vm.getObjs r = #[.op "add"])
@@ -569,7 +558,7 @@ theorem for_sum_pos (m : Nat) (s : State) (r : Nat) (a init inc lim : Int) (rest
   intro fuel hf
   have inv := sumTrace_inv s r a init inc rest hst
   refine ⟨?_, (inv _).stack⟩
-  apply PsVerif.Proofs.Loops.for_count_pos (f0 := 6) init inc lim hinc hlo hhi (sumTrace s a init inc rest) ?_ fuel hf
+  apply PsVerif.Proofs.Loops.for_count_pos (f0 := 6) init inc lim hinc hlo hinit hhi (sumTrace s a init inc rest) ?_ fuel hf
   intro k hk f hf6
   obtain ⟨f', rfl⟩ : ∃ f', f = f' + 6 := ⟨f - 6, by omega⟩
   have hs1 := hsum (k + 1) (by omega)
@@ -596,12 +585,49 @@ theorem demo_for (fuel : Nat) (hf : 12 ≤ fuel) :
   obtain ⟨f, rfl⟩ : ∃ f, fuel = f + 1 := ⟨fuel - 1, by omega⟩
   rw [for_op f 0 demoForState (.proc 11 0 1) 1 1 4 [.int 0] rfl]
   have hc : forCount 1 1 4 = 4 := by decide
-  have key := for_sum_pos 0 (setStack demoForState [.int 0]) 11 0 1 1 4 [] (by decide) (by decide) (by decide)
+  have key := for_sum_pos 0 (setStack demoForState [.int 0]) 11 0 1 1 4 [] (by decide) (by decide) (by decide) (by decide)
     (by decide) rfl rfl (by decide) (by decide +kernel) (by decide +kernel) (Or.inl rfl)
     (by rw [hc]; decide) f (by rw [hc]; omega)
   rw [hc] at key
   rw [key.1]
   exact ⟨rfl, key.2⟩
+
+/-! ### the former overflow witness, with the body `{ pop }` -/
+
+/-- the interpreter after scanning `0 4611686018427387904 9223372036854775807 { pop }` -/
+def demoOverflowState : State :=
+  { newInterpreter with vm := { newVM with
+      stack := [.proc 11 0 1, .int 9223372036854775807, .int 4611686018427387904, .int 0],
+      heap := initHeap.push (.objs #[.op "pop"]) } }
+
+/-- **`0 4611686018427387904 9223372036854775807 { pop } for` runs its body exactly twice** (6
+operations = 2 turns of 3) and ends with `ok` and an empty stack — instance of
+`Loops.for_overflow_fixed`, i.e. of the count theorem `for_count_pos`; before the repair of `bFor`
+this program ran until the budget was used up -/
+theorem demo_overflow_for (fuel : Nat) (hf : 10 ≤ fuel) :
+    callBuiltin fuel 0 demoOverflowState "for" =
+      (popState (popState (setStack demoOverflowState []) []) [], .ok) ∧
+    (popState (popState (setStack demoOverflowState []) []) []).vm.stack = [] ∧
+    (popState (popState (setStack demoOverflowState []) []) []).numOps = 6 := by
+  obtain ⟨f, rfl⟩ : ∃ f, fuel = f + 1 := ⟨fuel - 1, by omega⟩
+  refine ⟨?_, rfl, rfl⟩
+  rw [for_op f 0 demoOverflowState (.proc 11 0 1) 0 4611686018427387904 9223372036854775807 [] rfl]
+  let s0 := setStack demoOverflowState []
+  let σ : Nat → State := fun i => match i with
+    | 0 => s0
+    | 1 => popState s0 []
+    | _ => popState (popState s0 []) []
+  have hrun : ∀ (t : State) (v : Int), t.execDepth = 0 → t.procStart = [] → t.vm.stack = [] →
+      t.vm.getObjs 11 = #[.op "pop"] → lookupName t.vm "pop" = some (.builtin "pop") →
+      Runs 6 0 (.proc 11 0 1) (pushS t (.int v)) (popState t [], .ok) := by
+    intro t v h1 h2 h3 h4 h5 g hg
+    obtain ⟨g', rfl⟩ : ∃ g', g = g' + 6 := ⟨g - 6, by omega⟩
+    exact pop_body g' 0 (pushS t (.int v)) 11 (.int v) []
+      (by show t.execDepth < 100; omega) h2 (by show _ :: t.vm.stack = _; rw [h3]) (by decide) h4 h5 (Or.inl rfl)
+  have key := (for_overflow_fixed (f0 := 6) (m := 0) (p := .proc 11 0 1) σ
+    (hrun s0 0 rfl rfl rfl (by decide +kernel) (by decide +kernel))
+    (hrun (popState s0 []) 4611686018427387904 rfl rfl rfl (by decide +kernel) (by decide +kernel))).2
+  exact key f (by omega)
 
 /-- the same program, and the programs of the findings, run on the model from the source text
 (cross-check by evaluation; the Go code gives the same stacks, results and operation counts) -/
@@ -621,9 +647,14 @@ def runText (p : String) : List Obj × Res × Nat :=
 #guard_msgs in #eval runText "0 1 0 1 {add dup 5 eq {exit} if} for"      -- increment 0, left by `exit`
 /-- info: ([PsVerif.Model.Obj.int 102], PsVerif.Model.Res.ok, 42) -/
 #guard_msgs in #eval runText "/a [1 2 3] def 0 a { add a 2 99 put } forall"  -- element 2 re-read: 1+2+99
--- findings: overflow of the control value (budget hit instead of 2 turns), real increment
-/-- info: ([PsVerif.Model.Obj.int (-4611686018427387904)], PsVerif.Model.Res.err (PsVerif.Model.Err.limit), 100001) -/
+-- the former overflow witness: two turns (11 operations: 5 before the loop + 2 × 3)
+/-- info: ([], PsVerif.Model.Res.ok, 11) -/
 #guard_msgs in #eval runText "0 4611686018427387904 9223372036854775807 {pop} for"
+/-- info: ([PsVerif.Model.Obj.int 3], PsVerif.Model.Res.ok, 24) -/
+#guard_msgs in #eval runText "0 0 -4611686018427387904 -9223372036854775808 {pop 1 add} for"   -- 0, -2^62, -2^63: three turns
+/-- info: ([PsVerif.Model.Obj.int 1], PsVerif.Model.Res.ok, 12) -/
+#guard_msgs in #eval runText "0 9223372036854775807 1 9223372036854775807 {pop 1 add} for"     -- one turn, at maxint
+-- findings: real increment, increment 0
 /-- info: PsVerif.Model.Res.err (PsVerif.Model.Err.ps "typecheck") -/
 #guard_msgs in #eval (runText "0 0.5 1 {pop} for").2.1
 /-- info: PsVerif.Model.Res.err (PsVerif.Model.Err.limit) -/
@@ -652,7 +683,6 @@ def runText (p : String) : List Obj × Res × Nat :=
 #print axioms stop_propagates_forall_dict
 #print axioms exit_consumed_by_repeat_operator
 #print axioms for_zero_endless
-#print axioms for_overflow_endless
 #print axioms loop_endless
 #print axioms repeat_incr
 #print axioms demo_repeat
@@ -661,7 +691,8 @@ def runText (p : String) : List Obj × Res × Nat :=
 #print axioms PsVerif.Proofs.Loops.repeat_count
 #print axioms PsVerif.Proofs.Loops.for_count_pos
 #print axioms PsVerif.Proofs.Loops.for_count_neg
-#print axioms PsVerif.Proofs.Loops.for_overflow_cycle
+#print axioms PsVerif.Proofs.Loops.for_overflow_fixed
+#print axioms demo_overflow_for
 #print axioms PsVerif.Proofs.Loops.forallArr_count_gen
 #print axioms PsVerif.Proofs.Loops.forallStr_count_gen
 #print axioms PsVerif.Proofs.Loops.forallDict_count_gen
